@@ -166,6 +166,19 @@ var Mutators = []string{
 	`try { bound.extra = 1; three.prototype.mark = 1; Function.prototype.fpExtra = function(){ return 1 } } catch (e) {}`,
 }
 
+// RichSetup is every builder (with a fixed number) except those that remove or replace built-ins other
+// programs rely on: a template whose copies exercise every clone path at once.
+func RichSetup() []string {
+	var out []string
+	for i, b := range Builders {
+		if strings.Contains(b, "delete Array.prototype") || strings.Contains(b, "Object.prototype.toString =") {
+			continue
+		}
+		out = append(out, strings.ReplaceAll(b, "%N", strconv.Itoa(i%10)))
+	}
+	return out
+}
+
 // Piece draws one builder/mutator with its number filled in, or a generated program.
 func Piece(t *rapid.T, pool []string, label string) string {
 	if rapid.IntRange(0, 9).Draw(t, label+"-gen") < 3 {
